@@ -420,6 +420,66 @@ SCHEMA_ASSUME = [
     "serde-derive and the third-party Serialize impls (uuid, chrono, heapless, nalgebra) are taken as they are: they are the 'what Serialize writes' side",
 ]
 
+# --------------------------------------------------------------------------- C12
+def run_c12(ctx):
+    tlc_mc(ctx, "maxsize-sup", "MC_MaxSize", tmpl("MC_MaxSize", Depth=ctx.pick(1, 2)))
+    cargo_build(ctx, "h_maxsize")
+    trace_stage(ctx, "maxsize", [([hbin("h_maxsize")], "maxsize.ndjson")], "Trace_MaxSize")
+
+
+def sel_c12(mm):
+    if "specmodel" in _tags(mm):
+        raise core.ToolError("a sampled value is longer than the specification's supremum for the shape the harness declared: harness shape is wrong")
+    return True
+
+
+# --------------------------------------------------------------------------- postcard-dyn (C17, C18)
+def dyn_agree(ctx):
+    cargo_build(ctx, "h_dyn")
+    n = ctx.pick(600, 12000)
+    cmds = [([hbin("h_dyn"), "agree", "--n", str(n), "--seed", str(ctx.seed * 1000 + i)], f"dyn-{i}.ndjson") for i in range(NSH)]
+    return trace_stage(ctx, "dyn-agree", cmds, "Trace_Dyn")
+
+
+def dyn_total(ctx):
+    cargo_build(ctx, "h_dyn")
+    n = ctx.pick(250, 5000)
+    cmds = [([hbin("h_dyn"), "total", "--n", str(n), "--seed", str(ctx.seed * 1000 + i)], f"dyntotal-{i}.ndjson") for i in range(NSH)]
+    return trace_stage(ctx, "dyn-total", cmds, "Trace_Dyn")
+
+
+def _dyn_tool(mm):
+    if _tags(mm) & {"harness", "static", "jsonmodel"}:
+        raise core.ToolError(f"dyn trace self-check failed (harness schema/shape mapping, static encoding or the serde_json model): {mm.get('tags')} {str(mm['event'])[:300]}")
+
+
+def sel_c17(mm):
+    _dyn_tool(mm)
+    return mm["stage"] == "dyn-agree" and bool(_tags(mm) & {"dyn_enc", "dyn_dec", "crash"})
+
+
+def sel_c18(mm):
+    _dyn_tool(mm)
+    return bool(_tags(mm) & {"panic", "alloc", "idem", "wire", "crash"})
+
+
+def run_c17(ctx):
+    mc_wire(ctx)          # Enc/Dec, on which the relation rests
+    dyn_agree(ctx)
+
+
+def run_c18(ctx):
+    mc_wire(ctx)
+    dyn_agree(ctx)        # panics anywhere count
+    dyn_total(ctx)
+
+
+DYN_ASSUME = WIRE_ASSUME + [
+    "serde_json::to_value is the environment: the specification carries its own model of it (JsonOf) and a disagreement with the real to_value on an in-scope value is a tool error",
+    "f32 <-> f64 conversions used for logging are std's; the scope predicate Unambiguous is computed by the specification, not by the harness",
+    "allocation bound of dynamic decoding: 256 * (input length + schema size + 16) bytes; a memory safety net (RLIMIT_AS) keeps runaway allocations from exhausting the sandbox",
+]
+
 # --------------------------------------------------------------------------- properties
 
 
@@ -443,6 +503,21 @@ def run_c03(ctx):
 
 
 REGISTRY = {
+    "C17": dict(run=run_c17, select=sel_c17, assumptions=DYN_ASSUME, replay_pkg="h_dyn",
+                rule="dyn events: random shapes (depth<=3, all kinds expressible in a schema) and values; the harness derives the schema serde conventions give, "
+                     "logs static bytes, the structural serde_json value, the dynamic encoding of that value and the dynamic decoding of the static bytes; "
+                     "the specification decides scope (Unambiguous) and requires both to agree with Enc / JsonOf"),
+    "C18": dict(run=run_c18, select=sel_c18, assumptions=DYN_ASSUME, replay_pkg="h_dyn",
+                rule="dyn_ser events: random schema trees over every node kind x type-correct, near-miss and unrelated JSON; accepted encodings must decode and re-encode "
+                     "identically and be accepted exactly by Wire!Dec for the schema; dyn_de events: valid, mutated, truncated, length-attacked and random bytes with "
+                     "allocation measured; panics anywhere (also in the C17 trace)"),
+    "C12": dict(run=run_c12, select=sel_c12, replay_pkg="h_maxsize", assumptions=WIRE_ASSUME + [
+                    "the shape (with capacities) of each implementing type is declared next to it in the harness; a sample longer than SupLen(shape) is treated as a harness error",
+                    "the derive under test is the repository's postcard-derive (path dependency), used directly as postcard_derive::MaxSize",
+                    "tightness is required exactly for the kinds the statement lists (integers, floats, bool, char, arrays, tuples, options, fixed-capacity strings/vectors); larger safe bounds elsewhere are not alarms"],
+                rule="one maxsize event per implementing type (82 types: every built-in impl incl. NonZero*, ranges, smart pointers, heapless containers at capacities "
+                     "0,1,127,128,16383,16384; derived structs of all forms, generics, enums with 1,2,3,127,128,129 variants) with maximising values for every field/variant; "
+                     "declared >= SupLen(shape), every sample fits, declared = SupLen = attained for tight kinds"),
     "C14": dict(run=run_c14, select=sel_c14, assumptions=SCHEMA_ASSUME, replay_pkg="h_schema",
                 rule="conform events: ~110 (type, value) pairs per repetition: every built-in Schema implementor (ints, NonZero*, floats, char, str/String/PathBuf, unit, "
                      "tuples 1-6, arrays, slices/Vec/sets, maps, Option, Result, references, ranges, heapless 0.7/0.8, uuid, chrono, nalgebra, Key, the schema types) and "
